@@ -197,7 +197,13 @@ func (s *SSD) OnSurvey(surveyType string, payload []byte) ([]byte, bool) {
 
 // Lookup performs a against the storage.
 func (s *SSD) lookup(q lookupQuery) (matches message.Frame) {
-	matches = make(message.Frame, 0, q.Limit)
+	capacity := q.Limit // the limit comes from the client or a peer: never size the buffer by it
+	if capacity < 0 {
+		capacity = 0
+	} else if capacity > 64 {
+		capacity = 64
+	}
+	matches = make(message.Frame, 0, capacity)
 	if err := s.db.View(func(tx *badger.Txn) error {
 		it := tx.NewIterator(badger.IteratorOptions{
 			PrefetchValues: false,
